@@ -212,7 +212,12 @@ let conc file =
   if !mism > 0 || !propfail > 0 then exit 1
 
 let () =
-  Hashtbl.replace replays "ebr" ebr_replay
+  Hashtbl.replace replays "ebr" ebr_replay;
+  Hashtbl.replace replays "queue" queue_replay;
+  Hashtbl.replace replays "list" list_replay;
+  Hashtbl.replace replays "cell" cell_replay;
+  Hashtbl.replace listfuns "traits_rc" traits_line;
+  Hashtbl.replace listfuns "traits_snap" traits_line
 
 let () =
   match Array.to_list Sys.argv with
